@@ -115,6 +115,23 @@ class NonFinite(Exception):
     pass
 
 
+INF_NAME = "+inf"
+
+
+def inf_sign(p):
+    """+1 / -1 if p is exactly the constant +inf / -inf, else 0"""
+    if len(p.terms) != 1:
+        return 0
+    (m, c), = p.terms.items()
+    if len(m) == 1 and m[0][1] == 1 and _ATOM_LIST[m[0][0]].key == ("sym", INF_NAME) and abs(c) == 1:
+        return 1 if c > 0 else -1
+    return 0
+
+
+def mentions_inf(p):
+    return any(_ATOM_LIST[i].key == ("sym", INF_NAME) for i in p.atoms())
+
+
 class Poly:
     """terms: dict  monomial -> Fraction,  monomial = tuple of (atom_id, exponent) sorted by id"""
     __slots__ = ("terms", "_key")
@@ -127,6 +144,15 @@ class Poly:
     # ---- constructors
     @staticmethod
     def const(c):
+        # the constants +inf / -inf (initial "best value so far", fill values): a dedicated symbol that only comparisons,
+        # max / min and selections understand; any other use of it is refused when the formula is lowered
+        try:
+            fc = float(c)
+            if math.isinf(fc):
+                inf = Poly.sym(INF_NAME)
+                return inf if fc > 0 else -inf
+        except (TypeError, ValueError, OverflowError):
+            pass
         c = _frac(c)
         return Poly({(): c}) if c != 0 else Poly({})
 
@@ -491,6 +517,9 @@ def _single_bool(d):
 
 def b_lt(p, q):
     p, q = as_poly(p), as_poly(q)
+    sp, sq = inf_sign(p), inf_sign(q)
+    if sp or sq:        # against a finite real (all symbolic values are; NaN is probed separately)
+        return ONE if (sp < sq if (sp and sq) else (sq > 0 or sp < 0)) else ZERO
     d = p - q
     if d.is_const():
         return ONE if d.const_value() < 0 else ZERO
@@ -504,6 +533,9 @@ def b_lt(p, q):
 
 def b_eq(p, q):
     p, q = as_poly(p), as_poly(q)
+    sp, sq = inf_sign(p), inf_sign(q)
+    if sp or sq:
+        return ONE if sp == sq else ZERO
     d = p - q
     if d.is_const():
         return ONE if d.const_value() == 0 else ZERO
@@ -548,6 +580,8 @@ def b_or(a, b):
 
 def p_max(p, q):
     p, q = as_poly(p), as_poly(q)
+    if inf_sign(p) or inf_sign(q):
+        return q if b_lt(p, q) is ONE else p
     d = p - q
     if d.is_const():
         return p if d.const_value() >= 0 else q
@@ -557,6 +591,8 @@ def p_max(p, q):
 
 def p_min(p, q):
     p, q = as_poly(p), as_poly(q)
+    if inf_sign(p) or inf_sign(q):
+        return p if b_lt(p, q) is ONE else q
     d = p - q
     if d.is_const():
         return p if d.const_value() <= 0 else q
@@ -590,6 +626,8 @@ def evaluate(p: Poly, val, cache=None):
 
 def _eval_atom(a, val, cache):
     k = a.key
+    if k == ("sym", INF_NAME):
+        return math.inf
     if k[0] != "fn":
         return float(val(a))
     op = k[1]
